@@ -6,6 +6,7 @@ import (
 	"os"
 	"path/filepath"
 	"sort"
+	"strconv"
 	"strings"
 )
 
@@ -42,6 +43,7 @@ type Report struct {
 	Clauses     []string // what is decided, in words
 	NotDecided  []string
 	keySeen     map[string]int
+	prog        *Prog // set by the driver; used to recognise a known finding whose code moved into a helper
 }
 
 type expectation struct {
@@ -178,12 +180,28 @@ func (r *Report) finish(kf *KnownFile) outcome {
 			_ = o
 		}
 	}
+	exact := map[string]bool{}
+	for _, o := range r.Obligs {
+		if o.Status == Violated {
+			if k := kf.match(r.Prop, o); k != nil {
+				exact[k.Key] = true
+			}
+		}
+	}
+	usedMoved := map[string]bool{}
 	for _, o := range r.Obligs {
 		if o.Status == Violated || o.Status == Undecided {
 			if k := kf.match(r.Prop, o); k != nil && o.Status == Violated {
 				out.known = append(out.known, k)
 				out.knownObl = append(out.knownObl, o)
 				continue
+			}
+			if o.Status == Violated {
+				if k := r.matchMoved(kf, o, exact, usedMoved); k != nil {
+					out.known = append(out.known, k)
+					out.knownObl = append(out.knownObl, o)
+					continue
+				}
 			}
 			out.violations = append(out.violations, o)
 		}
@@ -292,4 +310,93 @@ func short(s string, n int) string {
 		return s[:n] + "…"
 	}
 	return s
+}
+
+// matchMoved: o is the known finding k whose code was moved into a helper — same rule, same
+// construct (up to its ordinal and the names of the helper's parameters is not attempted: the
+// construct text must be equal), k's own function still exists, no longer shows the finding,
+// and reaches o's function through static calls. Each known finding absorbs one obligation.
+func (r *Report) matchMoved(kf *KnownFile, o *Oblig, exact, used map[string]bool) *KnownFinding {
+	if r.prog == nil {
+		return nil
+	}
+	parts := strings.SplitN(o.Key, "|", 3)
+	if len(parts) != 3 {
+		return nil
+	}
+	stripOrd := func(s string) string {
+		if i := strings.LastIndex(s, "#"); i > 0 {
+			if _, err := strconv.Atoi(s[i+1:]); err == nil {
+				return s[:i]
+			}
+		}
+		return s
+	}
+	byName := map[string]*Func{}
+	for _, f := range r.prog.Funcs {
+		byName[f.Name] = f
+	}
+	to := byName[parts[1]]
+	if to == nil {
+		return nil
+	}
+	for i := range kf.Findings {
+		k := &kf.Findings[i]
+		if k.Property != r.Prop || exact[k.Key] || used[k.Key] {
+			continue
+		}
+		kp := strings.SplitN(k.Key, "|", 3)
+		if len(kp) != 3 || kp[0] != parts[0] || kp[1] == parts[1] {
+			continue
+		}
+		// the enclosing loop's collection is part of some constructs; in a helper it is a parameter
+		stripLoop := func(c string) string {
+			if i := strings.Index(c, " in range "); i > 0 {
+				return c[:i]
+			}
+			return c
+		}
+		if loosen(stripLoop(stripOrd(kp[2]))) != loosen(stripLoop(stripOrd(parts[2]))) {
+			continue
+		}
+		from := byName[kp[1]]
+		if from == nil {
+			continue
+		}
+		if _, reach := helperClosure(r.prog, []*Func{rootOf(from)}, 3)[rootOf(to)]; reach {
+			used[k.Key] = true
+			return k
+		}
+	}
+	return nil
+}
+
+// loosen: a construct text with every lower-case identifier (local variable, parameter)
+// replaced by "_"; exported names, literals and punctuation stay.
+func loosen(c string) string {
+	var sb strings.Builder
+	i := 0
+	isId := func(b byte) bool {
+		return b == '_' || b >= '0' && b <= '9' || b >= 'a' && b <= 'z' || b >= 'A' && b <= 'Z'
+	}
+	for i < len(c) {
+		if c[i] >= 'a' && c[i] <= 'z' && (i == 0 || !isId(c[i-1])) {
+			j := i
+			for j < len(c) && isId(c[j]) {
+				j++
+			}
+			word := c[i:j]
+			switch word {
+			case "len", "range", "in", "shifted", "by", "hcl", "append":
+				sb.WriteString(word)
+			default:
+				sb.WriteString("_")
+			}
+			i = j
+			continue
+		}
+		sb.WriteByte(c[i])
+		i++
+	}
+	return sb.String()
 }
